@@ -59,6 +59,7 @@ registry! {
     "C13" => props::c13::C13,
     "C14" => props::c14::C14,
     "C15" => props::c15::C15,
+    "C16" => props::c16::C16,
     "C17" => props::c17::C17,
     "C18" => props::c18::C18,
     "C19" => props::c19::C19,
